@@ -202,6 +202,7 @@ func monitor(c fw.Case, realOut []string) []string {
 	var hist []mEvent
 	txVals := []map[string]string{nil}
 	devSynced := false
+	devAhead := false // the device got a Set whose record write has not happened yet (in-flight apply)
 	draining := false
 	var last mState
 	for k, line := range c.Script {
@@ -237,6 +238,27 @@ func monitor(c fw.Case, realOut []string) []string {
 		}
 		if op == "v3.cfg" && st.state == "synchronized" && last.state == "synchronizing" && st.devUp {
 			devSynced = true
+		}
+		if op == "v3.tx" {
+			sentOK, completed := false, false
+			for _, q := range st.reqs {
+				if strings.HasSuffix(q, "->ok") {
+					sentOK = true
+				}
+			}
+			for _, e := range st.events {
+				if e.stage == "apply" && e.status == "C" {
+					completed = true
+				}
+			}
+			if completed {
+				devAhead = false
+			} else if sentOK {
+				devAhead = true
+			}
+		}
+		if op == "v3.cfg" && st.state == "synchronized" && last.state == "synchronizing" {
+			devAhead = false
 		}
 		n0 := len(hist)
 		hist = append(hist, st.events...)
@@ -311,7 +333,7 @@ func monitor(c fw.Case, realOut []string) []string {
 				if st.aVals[p] != txVals[i][p] {
 					report("consistency-applied", "line %d (%s): Applied.Revision=%d but Applied.Values[%s]=%q, the change has %q", k, line, i, p, st.aVals[p], txVals[i][p])
 				}
-				if st.devUp && devSynced && st.state == "synchronized" {
+				if st.devUp && devSynced && !devAhead && st.state == "synchronized" {
 					want, _, _ := strings.Cut(txVals[i][p], "@")
 					got, present := st.dev[p]
 					if want == "~" && present || want != "~" && got != want {
